@@ -155,6 +155,7 @@ def check(ctx):
     o = Ob('C06.2', 'K8+K6', 'the FINISH_PROCESSING site: due at now + max(0, cycle_time + offset + time_offset), own id, action _finish_cycle; '
                              'offset reset on every path; synchronous finish exactly when the duration is <= 0')
     obs.append(o)
+    dv.check_defaults(ctx, o, [(k, '__init__', 'cycle_time') for k in ('PartHandler', 'PartProcessor', 'Sink', 'Source')])
     roots = {'PartHandler': ['give_part'], 'PartProcessor': ['give_part'], 'Sink': ['give_part'], 'Source': ['initialize', '_pass_part_downstream']}
     for cname, ents in roots.items():
         if not P.has_cls(cname):
